@@ -1091,6 +1091,32 @@ def self_validating(eng, cls, hrec):
     return K >= hsize, K, bounded or set(), "valid only if size >= %d%s" % (K, (" and %s <= size - %d" % (sorted(x.split("::")[-1] for x in bounded), hsize)) if bounded else "")
 
 
+def default_buffer_size(fb, ctor, env, depth=4):
+    """Constant number of bytes the byte-vector member is given when `ctor` runs with its parameters bound by env: followed through the
+    chain of base-class initialisers down to the constructor that sizes the vector from one of its parameters (or from a constant)."""
+    if depth <= 0:
+        return None
+    for i in ctor.raw.get("inits", []) or []:
+        e = i.get("e") or {}
+        if i.get("field") and ((i.get("t") or e.get("t") or {}).get("rec") == "std::vector" or (e.get("rec") == "std::vector")):
+            a = e.get("args", [])
+            if a:
+                return const_value(facts.substitute(a[0], env)) if env else const_value(a[0])
+    for i in ctor.raw.get("inits", []) or []:
+        if not (i.get("base") or i.get("delegating")):
+            continue
+        e = i.get("e") or {}
+        g = fb.resolve_call(e) if e.get("k") in ("construct", "call") else None
+        if g is None:
+            continue
+        args = facts.effective_call(e).get("args", [])
+        env2 = {q["decl"]: (facts.substitute(a, env) if env else a) for q, a in zip(g.params, args)}
+        v = default_buffer_size(fb, g, env2, depth - 1)
+        if v is not None:
+            return v
+    return None
+
+
 def rule_construction(eng):
     fb, res = eng.fb, eng.res
     typed = typed_payload_classes(fb)
@@ -1128,14 +1154,8 @@ def rule_construction(eng):
                 ok = False
                 sz = None
                 if len(dc) == 1:
-                    for i in dc[0].raw.get("inits", []):
-                        if i.get("base"):
-                            e = i.get("e", {})
-                            a = e.get("args", [])
-                            if len(a) == 2:
-                                sz = const_value(a[1])
-                                # through an intermediate base constructor the size is passed on unchanged
-                                ok = sz is not None and sz >= hsize
+                    sz = default_buffer_size(fb, dc[0], {})
+                    ok = sz is not None and sz >= hsize
                 res.check(ok, "C02-R2", key, c.get("loc"), "default object holds %s >= %d bytes" % (sz, hsize),
                           "default-constructed %s holds %s bytes, its accessors read a %d-byte header" % (cls, sz, hsize))
                 continue
